@@ -153,13 +153,21 @@ func groupFlows(texts []obsText, fm *flowMap) (map[string]*flowObs, []obsText) {
 			txt, fl = digitRuns.ReplaceAllString(txt, pagesMark), digitRuns.ReplaceAllString(fl, pagesMark)
 		}
 		o.floated[page] = letters(fl)
-		o.perPage[page] = strings.Join(strings.Fields(txt), " ")
+		o.perPage[page] = unhyphenate(strings.Join(strings.Fields(txt), " "))
 		o.pages = append(o.pages, page)
 	}
 	for _, o := range obs {
 		sort.Ints(o.pages)
 	}
 	return obs, strangers
+}
+
+// unhyphenate undoes the breaks inside words: a line that ends with the hyphenate-character of the
+// document (a character of no source text) continues its last word on the next line of the flow
+// (CSS Text 3 §5.4: the hyphenate-character is shown at the end of the line, it is no document text).
+// The mark anywhere else (or at the end of a flow whose word does not continue) stays: an extra letter.
+func unhyphenate(s string) string {
+	return strings.ReplaceAll(s, hyphenMark+" ", "")
 }
 
 // allFloated joins the floated first letters in page order.
@@ -185,7 +193,8 @@ func (o *flowObs) all() string {
 			parts = append(parts, s)
 		}
 	}
-	return strings.Join(parts, " ")
+	// a word hyphenated at the end of a page continues on the next page of the flow
+	return unhyphenate(strings.Join(parts, " "))
 }
 
 // drawnTexts returns the texts of the DrawText calls of a page (groups flattened).
